@@ -220,6 +220,19 @@ def _subclasses():
     return _SUBS
 
 
+class _Truthy:
+    """A value that is not a bool but has a truth value (numpy.bool_, the result of `a and b`, ...)."""
+
+    def __init__(self, v):
+        self.v = bool(v)
+
+    def __bool__(self):
+        return self.v
+
+    def __repr__(self):
+        return f"<bool-like {self.v}>"
+
+
 def call_forms_agree(mon, kind, text, flag, o_ref, w):
     """The same request made positionally (documented parameter order) or through a user subclass must get
     the verdict of the keyword form.  kind: 'iban' (flag = validate_bban) or 'bic' (flag = enforce_swift_compliance)."""
@@ -240,6 +253,14 @@ def call_forms_agree(mon, kind, text, flag, o_ref, w):
                  ("positional_validate", lambda: S.BIC(text, allow_invalid=True).validate(flag))]
         if flag:
             forms.append(("strict_subclass", lambda: sub["SwiftBIC"](text)))
+    # the switch given as another truthy / falsy value than the bool singletons (1 / 0, a bool-like object)
+    tv = _Truthy(flag)
+    if kind == "iban":
+        forms += [("flag_as_int", lambda: S.IBAN(text, validate_bban=int(flag))), ("flag_as_bool_like_object", lambda: S.IBAN(text, allow_invalid=True).validate(validate_bban=tv)),
+                  ("allow_invalid_as_zero", lambda: S.IBAN(text, allow_invalid=0, validate_bban=flag))]
+    else:
+        forms += [("flag_as_int", lambda: S.BIC(text, enforce_swift_compliance=int(flag))), ("flag_as_bool_like_object", lambda: S.BIC(text, allow_invalid=True).validate(enforce_swift_compliance=tv)),
+                  ("allow_invalid_as_zero", lambda: S.BIC(text, allow_invalid=0, enforce_swift_compliance=flag))]
     for name, f in forms:
         o = observe(f)
         if o.ok != o_ref.ok:
